@@ -63,7 +63,11 @@ static void base_cfg (J &plan, const Fmt &f, int ch, int rate, const std::string
 // the value model or the sequential reference decides. Inserts the command right after the open at ops [at].
 static void maybe_clipping (GenCtx &g, J &plan, J &ops, size_t at, int T)
 {	std::string cls = plan.at ("cfg").at ("data").gets ("class") ;
-	if (!(T == T_FLOAT || T == T_DOUBLE) || !(cls == "noise" || cls == "sine" || cls == "ramp") || !g.rng.chance (0.2)) return ;
+	// (integer callers of IEEE encodings as well: with the default scaling the values pass through unscaled and every short / int is
+	// inside the range the clipping variant saturates at)
+	const Fmt *ff = find_format_name (plan.at ("cfg").gets ("fmt")) ;
+	bool int_via_ieee = ff && (ff->is_float || ff->is_double) && (T == T_SHORT || T == T_INT) ;
+	if (!(T == T_FLOAT || T == T_DOUBLE || int_via_ieee) || !(int_via_ieee || cls == "noise" || cls == "sine" || cls == "ramp") || !g.rng.chance (0.2)) return ;
 	J c = mkop ("cmd") ; c ["id"] = "clipping" ; c ["arg"] = 1 ;
 	if (at + 1 <= ops.a.size ()) ops.a.insert (ops.a.begin () + (long) (at + 1), c) ;
 }
